@@ -548,7 +548,92 @@ def compare_fields(fmt, what, f0, f1, units=0.5):
     return None
 
 
-def oracle(fmt, s):
+def snapshot(s):
+    """Everything observable of a structure that two readings of the same text must share."""
+    import numpy
+
+    return {
+        "cls": type(s).__name__,
+        "title": s.title,
+        "cell": [float(v) for v in s.lattice.abcABG()],
+        "base": [float(v) for v in numpy.ravel(s.lattice.base)],
+        "atoms": [(a.element, a.label, [float(v) for v in a.xyz], float(a.occupancy), bool(a.anisotropy),
+                   [float(v) for v in numpy.ravel(a.U)]) for a in s],
+        "pdffit": {k: v for k, v in (getattr(s, "pdffit", None) or {}).items()},
+    }
+
+
+def same_snapshot(a, b, ignore_title=False):
+    """None when two snapshots agree (numbers to 1e-12 relative), else a description."""
+    if len(a["atoms"]) != len(b["atoms"]):
+        return "%d atoms instead of %d" % (len(b["atoms"]), len(a["atoms"]))
+    if not ignore_title and a["title"] != b["title"]:
+        return "title %r instead of %r" % (b["title"], a["title"])
+
+    def num_eq(x, y):
+        return all(abs(p - q) <= 1e-12 * max(1.0, abs(p)) for p, q in zip(x, y)) and len(x) == len(y)
+    if not num_eq(a["cell"], b["cell"]) or not num_eq(a["base"], b["base"]):
+        return "lattice %r instead of %r" % (b["cell"], a["cell"])
+    for i, (p, q) in enumerate(zip(a["atoms"], b["atoms"])):
+        if p[0] != q[0] or p[1] != q[1] or p[4] != q[4] or not num_eq(p[2], q[2]) or not num_eq([p[3]], [q[3]]) or not num_eq(p[5], q[5]):
+            return "atom %d is %r instead of %r" % (i, q[:5], p[:5])
+    return None
+
+
+def inplace_trips(fmt, fresh, ref_texts, ref_strus):
+    """The round trip on ONE object: `stru.readStr(stru.writeStr(f), f)` and `stru.write(path, f);
+    stru.read(path, f)`, three passes each.  After every pass the object must equal the structure
+    a fresh `Structure().readStr` made of the same text (`ref_strus`), and write the same text.
+    Returns None or (key, what)."""
+    import tempfile
+
+    for variant in ("str", "file"):
+        s = fresh()
+        tmpdir = None
+        try:
+            if variant == "file":
+                os.makedirs(common.WORK, exist_ok=True)
+                tmpdir = tempfile.mkdtemp(prefix="c04_", dir=common.WORK)
+            for n in range(1, len(ref_texts) + 1):
+                what = "%s: in-place %s round trip, pass %d: " % (fmt, "readStr(writeStr())" if variant == "str" else "write(); read()", n)
+                try:
+                    if variant == "str":
+                        t = s.writeStr(fmt)
+                        with _quiet():
+                            s.readStr(t, fmt)
+                    else:
+                        path = os.path.join(tmpdir, "c04rt.%s" % fmt)
+                        s.write(path, fmt)
+                        with open(path, encoding="utf-8") as fp:
+                            t = fp.read()
+                        with _quiet():
+                            s.read(path, fmt)
+                except Exception as e:  # noqa: BLE001
+                    return ("%s:inplace-%s:%s" % (fmt, variant, type(e).__name__), what + "%s: %s" % (type(e).__name__, str(e)[:200]))
+                if tokens(fmt, t) != tokens(fmt, ref_texts[n - 1]):
+                    return ("%s:inplace-%s:text" % (fmt, variant), what + "the text written differs from the text of a fresh object: %s" % (
+                        tokens_close(tokens(fmt, ref_texts[n - 1]), tokens(fmt, t), 0.0)))
+                ref = snapshot(ref_strus[n - 1])
+                got = snapshot(s)
+                # attributes that the text does not carry (a title the format has no record for, the
+                # pdffit / xcfg dictionaries) may be left over from before the read: that is C16's
+                # subject (open findings stale-attr:*), not C04's; Structure.read() also names an
+                # untitled structure after the file
+                ign = ref["title"] == ""
+                if variant == "file" and ign:
+                    s.title = ""
+                msg = same_snapshot(ref, got, ignore_title=ign)
+                if msg:
+                    return ("%s:inplace-%s:structure" % (fmt, variant), what + "the object holds " + msg + " (compared with a fresh Structure().readStr of the same text)")
+        finally:
+            if tmpdir:
+                import shutil
+
+                shutil.rmtree(tmpdir, ignore_errors=True)
+    return None
+
+
+def oracle(fmt, s, fresh=None):
     """Evaluate the property statement on structure `s` (real code only).
 
     Returns (None, info) when it holds, else ((key, what), info).  `info` keeps the texts and the
@@ -577,6 +662,11 @@ def oracle(fmt, s):
             fmt, tokens_close(k2, k3, 0.0))), info
     bad = compare_fields(fmt, "second round trip", carried(fmt, s1), carried(fmt, s2, ref=s1), units=1e-3)
     if bad:
+        if fmt in ("pdb", "cif") and len(s1) == len(s2) and [bool(a.anisotropy) for a in s1] != [bool(a.anisotropy) for a in s2]:
+            # same root cause as the period-2 alternation (<fmt>:drift): the writer chooses the ADP
+            # record from the exact isotropy of a.U, the reader from the record it finds
+            return ("%s:drift:adp-switch" % fmt, bad[1] + "; the ADP record type (ANISOU / Uani) written for an atom "
+                    "read as anisotropic switched to isotropic on the second write"), info
         return (bad[0] + ":second-trip", bad[1]), info
     if fmt == "xcfg":
         msg = xcfg_positions(fmt, s1, s2, t2)
@@ -584,6 +674,14 @@ def oracle(fmt, s):
             return ("xcfg:xyz:second-trip", "xcfg: second round trip: " + msg), info
     info["t2_equals_t1"] = canon_text(fmt, t1) == canon_text(fmt, t2)
     info["t2_close_t1"] = tokens_close(tokens(fmt, t1), tokens(fmt, t2), 1.0) is None
+    # (c) the same trips on one object (readStr / read replace the content of the object itself)
+    if fresh is None:
+        import copy
+
+        fresh = lambda: copy.copy(s)  # noqa: E731
+    bad = inplace_trips(fmt, fresh, r["texts"], r["strus"])
+    if bad:
+        return bad, info
     return None, info
 
 
@@ -1229,7 +1327,7 @@ def spec_fails(fmt, key=None):
             return False
         if known_defect(fmt, s) and known_defect(fmt, s) != key:
             return False
-        bad, _ = oracle(fmt, s)
+        bad, _ = oracle(fmt, s, fresh=lambda: build(spec))
         return bad is not None and (key is None or bad[0] == key)
     return f
 
@@ -1266,6 +1364,11 @@ def corpus():
         out.append((fmt, one))
         out.append((fmt, dict(one, atoms=[dict(one["atoms"][0], adp=["iso", hx(0.00005)])])))
         out.append((fmt, dict(one, cell=base["cell"], atoms=[dict(one["atoms"][0], xyz=[hx(0.0)] * 3, adp=["zero"])])))
+        out.append((fmt, dict(one, cls="PDFFitStructure", pdffit={"scale": hx(1.5)}, title="two atoms",
+                              atoms=[one["atoms"][0], dict(one["atoms"][0], el="O", xyz=[hx(0.5), hx(0.0), hx(0.75)], occ=hx(0.5))])))
+        if fmt == "pdb":
+            out.append((fmt, dict(one, cell=base["cell"], atoms=[dict(one["atoms"][0], xyz=[hx(0.0)] * 3,
+                                  adp=["aniso", [hx(0.000128597), hx(5.52154e-05), hx(0.000136583), hx(0.0), hx(0.0), hx(0.0)]])])))
     return out
 
 
@@ -1280,7 +1383,7 @@ def run(ck):
     for ci, (fmt, spec) in enumerate(cases):
         s = build(spec)
         rng_reason = in_range(fmt, s)
-        bad, info = oracle(fmt, s)
+        bad, info = oracle(fmt, s, fresh=lambda spec=spec: build(spec))
         st = stats[fmt]
         st["cases"] += 1
         results.append((fmt, spec, s, bad, info, rng_reason))
@@ -1330,7 +1433,7 @@ def run(ck):
             continue
         reported.add(key)
         small = shrink(fmt, spec, spec_fails(fmt, bad[0])) if not kd else spec
-        b2, _ = oracle(fmt, build(small))
+        b2, _ = oracle(fmt, build(small), fresh=lambda small=small: build(small))
         what2 = b2[1] if b2 else what
         ck.fail(key, "%s  [minimal structure: %s]" % (what2, describe(small)),
                 {"kind": "oracle", "format": fmt, "spec": small, "original_spec": spec,
@@ -1417,7 +1520,7 @@ def replay(path):
         return 0
     fmt = obj["format"]
     s = build(obj["spec"])
-    bad, _ = oracle(fmt, s)
+    bad, _ = oracle(fmt, s, fresh=lambda: build(obj["spec"]))
     if bad:
         print("replay: still fails:", bad[1])
         return 1
